@@ -2,6 +2,8 @@
 package main
 
 import (
+	"os"
+
 	"verif/core"
 	"verif/e2/check"
 	"verif/e2/families"
@@ -18,7 +20,7 @@ func run(c *core.Ctx) {
 	c.Assume("the wire is in-memory: http.Request.Write -> http.ReadRequest -> goa muxer on an httptest recorder; the client decodes recorder.Result()")
 	fams := []check.Family{families.ResultSingle(), families.ResultPair(c.Thorough()), families.ResultStatus(), families.Features(), families.CrossService(), families.DeepResultShapes(c.Thorough())}
 	c.Rule("deep type structure (JSON bodies): " + spec.DeepShapesDoc + "; values as in C02")
-	if families.OnlyStreams(c) {
+	if families.OnlyStreams(c) || families.OnlySequences(c) {
 		fams = nil
 	}
 	for _, f := range fams {
@@ -30,6 +32,11 @@ func run(c *core.Ctx) {
 		if err := check.RunMode(c, corpus, "C03"); err != nil {
 			c.HarnessError("%s: %v", f.Name, err)
 		}
+	}
+	// both tiers: operation sequences on one client object and one mounted server, response side
+	// (driver mode C03Q, e2/drv/opseq.go)
+	if os.Getenv("VERIF_ONLY_STREAMS") == "" {
+		families.RunSequences(c, "C03Q")
 	}
 	// thorough tier: HTTP (WebSocket) streaming endpoints, streamed results and the final result
 	// of client-streaming endpoints (driver mode C03S, e2/drv/c03stream.go)
